@@ -15,8 +15,8 @@ def gen_walk_case(rng, sim, heavy_churn=False):
     label = rng.choice(cases.LABEL_SCHEMES)
     schemes = list(cases.WEIGHT_SCHEMES)
     if heavy_churn:
-        ew = rng.choice(["twolevel", "wide", "tenth", "somezero"])
-        nw = rng.choice([None, "twolevel", "wide", "somezero"])
+        ew = rng.choice(["twolevel", "wide", "tenth", "somezero", "tiny"])
+        nw = rng.choice([None, "twolevel", "wide", "somezero", "tiny"])
     else:
         ew = rng.choice([None, None] + schemes)
         nw = rng.choice([None, None] + schemes)
@@ -35,6 +35,10 @@ def gen_walk_case(rng, sim, heavy_churn=False):
     tmax = None
     if sis:
         tmax = rng.choice([None, float("inf"), 1e9])
+        if "tiny" in (ew, nw):
+            # rates ~1e-9: the default horizon (100) would end the run before the
+            # first event whatever the clock answer; use an unbounded horizon
+            tmax = float("inf")
     return {"sim": sim, "graph": spec, "tau": cases.draw_rate(rng, allow_zero=not heavy_churn),
             "gamma": cases.draw_rate(rng), "I0": I0, "R0": R0,
             "R0_given": bool(R0) or (rng.random() < 0.2 and not sis),
